@@ -497,6 +497,12 @@ func (u *Unit) intrinsic(st *State, fr *Frame, in *ssa.Call, fn *ssa.Function, a
 		return And(Eq(a.Blk, b.Blk), Eq(a.Off, b.Off), Eq(a.Len, b.Len), Eq(a.Cap, b.Cap)), true
 	case "isnil":
 		return Eq(args[0].(SliceV).Blk, IntLit(0)), true
+	case "ishash":
+		goal := u.goalMode > 0
+		if u.specMode == 0 && flowsOnlyToAssert(in, 0) {
+			goal = true
+		}
+		return u.isHash(st, args[0], args[1], goal), true
 	case "sigvalid":
 		goal := u.goalMode > 0
 		if u.specMode == 0 && flowsOnlyToAssert(in, 0) {
